@@ -194,12 +194,27 @@ func (t *tr) callWrites(c *ast.CallExpr) []ast.Expr {
 func (t *tr) sortedVars(m map[*types.Var]bool) []*types.Var {
 	var vs []*types.Var
 	for v := range m {
-		if isGlobal(v) {
+		if isGlobal(v) && !(t.initMode && t.initVars[v]) {
 			panic(fail{fmt.Sprintf("%s: write to package-level variable %s", fset.Position(v.Pos()), v.Name())})
 		}
 		vs = append(vs, v)
 	}
 	sort.Slice(vs, func(i, j int) bool { return vs[i].Pos() < vs[j].Pos() })
+	return vs
+}
+
+func (t *tr) initOrder() []*types.Var {
+	var vs []*types.Var
+	for v := range t.initVars {
+		vs = append(vs, v)
+	}
+	sort.Slice(vs, func(i, j int) bool {
+		pi, pj := fset.Position(vs[i].Pos()), fset.Position(vs[j].Pos())
+		if pi.Filename != pj.Filename {
+			return pi.Filename < pj.Filename
+		}
+		return pi.Offset < pj.Offset
+	})
 	return vs
 }
 
@@ -931,6 +946,9 @@ func (t *tr) rangeStmt(x *ast.RangeStmt, rest []ast.Stmt, k cont) string {
 func (t *tr) retTuple(vals []string) string {
 	if t.chk {
 		return "true"
+	}
+	if t.initMode {
+		return t.tuple(t.initOrder())
 	}
 	all := append([]string{}, vals...)
 	for i, m := range t.f.mutated {
